@@ -66,6 +66,16 @@ func (fr *Frame) loopCut(h *ssa.BasicBlock, n int, body map[*ssa.BasicBlock]bool
 		v := c.freshConst(p.Name()+"_"+mangle(p.Comment), c.sortOf(p.Type()))
 		fr.env[p] = v
 		x.assumeAllocatedDeep(st, p.Type(), v)
+		if p.Comment == "rangeindex" {
+			// the hidden index of a range loop starts at -1 and is incremented while below the length: by
+			// construction of the SSA it never falls below -1 (and cannot wrap)
+			ii, _ := basicInt(p.Type())
+			if c.Int {
+				c.assume(implies(st.Reach, sx("<=", "(- 1)", v)))
+			} else {
+				c.assume(implies(st.Reach, and(sx("bvsle", c.intLit(-1, ii), v), sx("bvslt", v, c.intLit(1<<62, ii)))))
+			}
+		}
 	}
 	if lc != nil {
 		sc := fr.scope(st, fr.entry)
@@ -286,7 +296,7 @@ func (fr *Frame) scanInstr(fp *footprint, in ssa.Instruction, inLoop func(ssa.Va
 		if cc.IsInvoke() {
 			key := ShortName(fmt.Sprintf("(%s).%s", cc.Value.Type().String(), cc.Method.Name()))
 			fp.cnts["cnt:call:"+key] = true
-			if ct := x.w.Contracts[key]; ct != nil && (ct.ModAll || len(ct.Modifies) > 0) {
+			if ct := x.w.Contracts[key]; ct != nil && (ct.ModAll || len(ct.ModTypes) > 0 || len(ct.Modifies) > 0) {
 				fp.all = true
 			}
 			fp.alloc = true
@@ -306,7 +316,7 @@ func (fr *Frame) scanInstr(fp *footprint, in ssa.Instruction, inLoop func(ssa.Va
 		}
 		ct := x.w.Contracts[key]
 		if ct != nil && ct.HasSpec && !ct.Inline {
-			if ct.ModAll || (len(ct.Modifies) > 0 && !(explicit && depth == 0)) {
+			if ct.ModAll || len(ct.ModTypes) > 0 || (len(ct.Modifies) > 0 && !(explicit && depth == 0)) {
 				fp.all = true
 			}
 			if !ct.pureNoAlloc() {
